@@ -508,6 +508,11 @@ func (r *Reconciler) reconcileCommit(ctx context.Context, proposal *configapi.Pr
 func applyChangeToConfig(values map[string]*configapi.PathValue, path string, value *configapi.PathValue) (string, *configapi.PathValue) {
 	values[path] = value
 
+	// A deleted value does not bring its ancestors back: a deleted ancestor still covers whatever else lies beneath it
+	if value.Deleted {
+		return "", nil
+	}
+
 	// Walk up the path, at path element boundaries (a list entry /l[k=1] lies beneath /l, see utils.IsPathBelow),
 	// and make sure that there are no ancestors marked as deleted in the given map; if so, remove them and
 	// return the outermost one (it covers the others)
